@@ -1,5 +1,7 @@
-(* C12: the members of an archive are exactly the files its node-states refer to, provided no two keys of a
-   dict have the same JSON spelling (and every key is JSON-able) and there is no rank-0 object array. *)
+(* C12: the members of an archive are exactly the files its node-states refer to, for every value that dumps and
+   has no rank-0 object array.  Two keys of a dict with the same JSON spelling make dict_get_state raise (the
+   repair of D08), a key json cannot write makes json.dumps(state) raise in _save (d_late): both are refusals,
+   so the former no-collision guard is gone. *)
 From Skv Require Import PyStrFacts CodecWf CodecWfFacts PyValInd CodecNameFacts.
 From Coq Require Import Lia.
 
@@ -19,31 +21,6 @@ Qed.
 Lemma frf_state k x : (exists kv, x = JObj kv) -> frf (k, x) = file_refs x.
 Proof. intros [kv ->]. unfold frf. cbn [fst snd]. destruct (pstr_eqb k (s "file")); reflexivity. Qed.
 
-(* the no-collision guard *)
-Fixpoint nodup_pstr (l : list pstr) : bool := match l with [] => true | x :: l' => negb (mem x l') && nodup_pstr l' end.
-Definition dumped_keys (l : list (dkey * pval)) : list dkey :=
-  flat_map (fun kv => if is_prop (snd kv) then [] else [fst kv]) l.
-Definition keys_plain (l : list (dkey * pval)) : bool :=
-  forallb (fun k => match k_val k with Some _ => true | None => false end) (dumped_keys l)
-  && nodup_pstr (map (fun k => match k_val k with Some sc => key_text sc | None => [] end) (dumped_keys l)).
-Fixpoint no_collisions (v : pval) : bool :=
-  let fix all (l : list pval) : bool := match l with [] => true | x :: l' => no_collisions x && all l' end in
-  let fix vals (l : list (dkey * pval)) : bool := match l with [] => true | (_, x) :: l' => no_collisions x && vals l' end in
-  match v with
-  | PSeq _ _ _ _ _ l => all l
-  | PDict _ _ _ l => keys_plain l && vals l
-  | PDefDict _ _ _ f l => keys_plain l && no_collisions f && vals l
-  | PObjArr _ _ _ _ l => all l
-  | PMasked _ _ _ d k => no_collisions d && no_collisions k
-  | PRandState _ _ _ x => no_collisions x
-  | PRandGen _ _ _ x y => no_collisions x && no_collisions y
-  | PPartial _ _ _ f a k n => no_collisions f && no_collisions a && no_collisions k && no_collisions n
-  | POpFunc _ _ a => no_collisions a
-  | PMethod _ _ _ x => no_collisions x
-  | PObj _ _ _ _ _ _ x => no_collisions x
-  | _ => true
-  end.
-
 Definition NX (st : dst) (refs : list pstr) (st' : dst) : Prop :=
   forall n, In n (names st') <-> In n (names st) \/ In n refs.
 Lemma NX_nil st : NX st [] st. Proof. intros n. cbn [In]. tauto. Qed.
@@ -59,95 +36,99 @@ Proof.
   intros [H|[<-|[]]]; [exact H|exact Hh].
 Qed.
 
+(* NX, for the dumps whose deferred json.dumps(state) error is not set at the end (d_late only ever goes from
+   None to Some): then it was not set at the start either *)
+Definition RX (st : dst) (refs : list pstr) (st' : dst) : Prop :=
+  d_late st' = None -> d_late st = None /\ NX st refs st'.
+Lemma RX_of_NX st refs st' : d_late st' = d_late st -> NX st refs st' -> RX st refs st'.
+Proof. intros Hl Hn H. rewrite <- Hl. split; assumption. Qed.
+Lemma RX_trans st r1 st1 r2 st2 : RX st r1 st1 -> RX st1 r2 st2 -> RX st (r1 ++ r2) st2.
+Proof. intros H1 H2 H. destruct (H2 H) as [L1 N2]. destruct (H1 L1) as [L0 N1]. split; [exact L0|eapply NX_trans; eassumption]. Qed.
+Lemma RX_pre st0 st refs st' : names st0 = names st -> d_late st0 = d_late st -> RX st0 refs st' -> RX st refs st'.
+Proof. intros Hn Hl H H'. destruct (H H') as [L N]. split; [rewrite <- Hl; exact L|]. intros n. rewrite (N n), Hn. tauto. Qed.
+Lemma set_late_some e st : d_late (set_late e st) <> None.
+Proof. unfold set_late. cbn [d_late]. destruct (d_late st); discriminate. Qed.
+
 Section Refs.
   Variable E : denv.
   Definition Mx (v : pval) : Prop :=
-    no_collisions v = true -> no_rank0 v = true ->
-    forall st j st', get_state E v st = Ok (j, st') -> NX st (file_refs j) st'.
+    no_rank0 v = true ->
+    forall st j st', get_state E v st = Ok (j, st') -> RX st (file_refs j) st'.
 
-  Lemma all_forallb (g : pval -> bool) l :
-    (fix all (l : list pval) : bool := match l with [] => true | x :: l' => g x && all l' end) l = forallb g l.
-  Proof. induction l as [|x l IH]; [reflexivity|]. cbn [forallb]. rewrite <- IH. reflexivity. Qed.
-  Lemma vals_forallb (g : pval -> bool) l :
-    (fix vals (l : list (dkey * pval)) : bool := match l with [] => true | (_, x) :: l' => g x && vals l' end) l
-    = forallb (fun kv => g (snd kv)) l.
-  Proof. induction l as [|[k x] l IH]; [reflexivity|]. cbn [forallb snd]. rewrite <- IH. reflexivity. Qed.
-
-  Lemma states_refs l : Forall Mx l -> forallb no_collisions l = true -> forallb no_rank0 l = true ->
-    forall st js st', states_of (fun x s0 => get_state E x s0) l st = Ok (js, st') -> NX st (flat_map file_refs js) st'.
+  Lemma states_refs l : Forall Mx l -> forallb no_rank0 l = true ->
+    forall st js st', states_of (fun x s0 => get_state E x s0) l st = Ok (js, st') -> RX st (flat_map file_refs js) st'.
   Proof.
-    induction 1 as [|x l Hx Hl IH]; intros Hc Hr st js st' H; cbn [states_of] in H.
-    - injection H as <- <-. apply NX_nil.
-    - cbn [forallb] in Hc, Hr. apply andb_prop in Hc. destruct Hc. apply andb_prop in Hr. destruct Hr. inv_bind H. cbn [flat_map].
-      eapply NX_trans; [eapply Hx; eauto|eapply IH; eauto].
+    induction 1 as [|x l Hx Hl IH]; intros Hr st js st' H; cbn [states_of] in H.
+    - injection H as <- <-. apply RX_of_NX; [reflexivity|apply NX_nil].
+    - cbn [forallb] in Hr. apply andb_prop in Hr. destruct Hr. inv_bind H. cbn [flat_map].
+      eapply RX_trans; [eapply Hx; eauto|eapply IH; eauto].
   Qed.
 
   Lemma frf_nofile k x : pstr_eqb k (s "file") = false -> frf (k, x) = file_refs x.
   Proof. intros H. unfold frf. cbn [fst snd]. rewrite H. reflexivity. Qed.
 
-  Lemma nodup_pstr_NoDup l : nodup_pstr l = true -> NoDup l.
-  Proof.
-    induction l as [|x l IH]; cbn [nodup_pstr]; intros H; [constructor|]. apply andb_prop in H. destruct H as [H1 H2].
-    constructor; [|auto]. intro Hin. apply mem_In in Hin. rewrite Hin in H1. discriminate.
-  Qed.
   Lemma jset_fresh' t j acc : ~ In t (map fst acc) -> jset t j acc = acc ++ [(t, j)].
   Proof.
     induction acc as [|[t' j'] acc IH]; cbn [map fst In jset app]; intros H; [reflexivity|].
     destruct (pstr_eqb t t') eqn:Eq; [apply pstr_eqb_eq in Eq; subst; tauto|]. rewrite IH by tauto. reflexivity.
   Qed.
-
-  Definition ktx (k : dkey) : pstr := match k_val k with Some sc => key_text sc | None => [] end.
-
-  Lemma content_refs l : Forall (fun kv => Mx (snd kv)) l ->
-    forallb (fun kv => no_collisions (snd kv)) l = true -> forallb (fun kv => no_rank0 (snd kv)) l = true ->
-    forallb (fun k => match k_val k with Some _ => true | None => false end) (dumped_keys l) = true ->
-    forall acc st cont st', NoDup (map fst acc ++ map ktx (dumped_keys l)) ->
-      content_of (fun x s0 => get_state E x s0) l acc st = Ok (cont, st') ->
-      exists refs, flat_map frf cont = flat_map frf acc ++ refs /\ NX st refs st'.
+  (* the loop did not raise at this key: its text is new, the entry is appended *)
+  Lemma no_collision_fresh k sc j acc : k_val k = Some sc -> key_collides k acc = false ->
+    jset (key_text sc) j acc = acc ++ [(key_text sc, j)].
   Proof.
-    induction 1 as [|[k x] l Hx Hl IH]; intros Hc Hr Hs acc st cont st' Hnd H; cbn [content_of] in H.
-    - injection H as <- <-. exists []. split; [rewrite app_nil_r; reflexivity|apply NX_nil].
-    - cbn [forallb snd] in Hc, Hr. apply andb_prop in Hc. destruct Hc as [Hc1 Hc2]. apply andb_prop in Hr. destruct Hr as [Hr1 Hr2].
-      cbn [dumped_keys flat_map snd fst] in Hs, Hnd. destruct (is_prop x) eqn:Hp.
-      + cbn [app] in Hs, Hnd. eapply IH; eauto.
-      + cbn [app forallb map] in Hs, Hnd. apply andb_prop in Hs. destruct Hs as [Hs1 Hs2].
-        destruct (get_state E x st) as [[j st1]|] eqn:Ex; [|discriminate]. cbn [bind] in H.
-        destruct (k_val k) as [sc|] eqn:Ek; [|discriminate Hs1].
-        assert (Hktx : ktx k = key_text sc) by (unfold ktx; rewrite Ek; reflexivity). rewrite Hktx in Hnd.
-        rewrite jset_fresh' in H.
-        2:{ intro Hin. apply NoDup_remove_2 in Hnd. apply Hnd. apply in_or_app. left. exact Hin. }
-        destruct (IH Hc2 Hr2 Hs2 (acc ++ [(key_text sc, j)]) st1 cont st') as [refs [Hf Hn]]; [|exact H|].
-        { rewrite map_app. cbn [map fst]. rewrite <- app_assoc. exact Hnd. }
+    intros Ek Hc. unfold key_collides in Hc. rewrite Ek in Hc. apply jset_fresh'. intro Hin. apply mem_In in Hin. rewrite Hin in Hc. discriminate.
+  Qed.
+
+  (* every entry written stays in `content` (no later key replaces it), so the references of the values' states are
+     exactly the references of the content; a key json refuses sets the deferred error: excluded by d_late st' = None *)
+  Lemma content_refs l : Forall (fun kv => Mx (snd kv)) l ->
+    forallb (fun kv => no_rank0 (snd kv)) l = true ->
+    forall acc st cont st',
+      content_of (fun x s0 => get_state E x s0) l acc st = Ok (cont, st') -> d_late st' = None ->
+      d_late st = None /\ exists refs, flat_map frf cont = flat_map frf acc ++ refs /\ NX st refs st'.
+  Proof.
+    induction 1 as [|[k x] l Hx Hl IH]; intros Hr acc st cont st' H Hlate; cbn [content_of] in H.
+    - injection H as <- <-. split; [exact Hlate|]. exists []. split; [rewrite app_nil_r; reflexivity|apply NX_nil].
+    - cbn [forallb snd] in Hr. apply andb_prop in Hr. destruct Hr as [Hr1 Hr2].
+      destruct (is_prop x) eqn:Hp; [eapply IH; eauto|].
+      destruct (key_collides k acc) eqn:Hkc; [discriminate|].
+      destruct (get_state E x st) as [[j st1]|] eqn:Ex; [|discriminate]. cbn [bind] in H.
+      destruct (k_val k) as [sc|] eqn:Ek.
+      + rewrite (no_collision_fresh k sc j acc Ek Hkc) in H.
+        destruct (IH Hr2 (acc ++ [(key_text sc, j)]) st1 cont st' H Hlate) as [L1 [refs [Hf Hn]]].
+        destruct (Hx Hr1 _ _ _ Ex L1) as [L0 N0]. split; [exact L0|].
         destruct (root_fields _ _ _ _ _ Ex) as [kv [Hj _]].
         exists (file_refs j ++ refs). split.
         * rewrite Hf, flat_map_app. cbn [flat_map]. rewrite (frf_state _ j (ex_intro _ kv Hj)), app_nil_r, <- app_assoc. reflexivity.
-        * eapply NX_trans; [eapply (Hx Hc1 Hr1); eauto|exact Hn].
+        * eapply NX_trans; [exact N0|exact Hn].
+      + destruct (IH Hr2 acc (set_late EType st1) cont st' H Hlate) as [L1 _]. destruct (set_late_some _ _ L1).
   Qed.
 
-  Definition Mcx (c : clo) : Prop := forall st j st', c st = Ok (j, st') -> NX st (file_refs j) st'.
+  Definition Mcx (c : clo) : Prop := forall st j st', c st = Ok (j, st') -> RX st (file_refs j) st'.
   Lemma list_state_refs items lid : file_refs (list_state items lid) = flat_map file_refs items.
   Proof. unfold list_state. rewrite file_refs_state. cbn [flat_map]. rewrite frf_nofile by reflexivity. rewrite file_refs_arr, app_nil_r. reflexivity. Qed.
 
   Lemma tolist_refs : forall dims cs st j cs' st', Forall Mcx cs -> tolist_state dims cs st = Ok (j, cs', st') ->
-    NX st (file_refs j) st' /\ Forall Mcx cs'.
+    RX st (file_refs j) st' /\ Forall Mcx cs'.
   Proof.
     induction dims as [|d dims IH]; intros cs st j cs' st' Hcs H; cbn [tolist_state] in H.
     - destruct cs as [|c cs]; [discriminate|]. inv_bind H. inversion Hcs; subst. split; [eauto|assumption].
     - destruct (fresh st) as [lid st0] eqn:Hf.
-      assert (Hn0 : names st0 = names st) by (unfold fresh in Hf; injection Hf as <- <-; reflexivity).
+      assert (Hn0 : names st0 = names st /\ d_late st0 = d_late st) by (unfold fresh in Hf; injection Hf as <- <-; split; reflexivity).
+      destruct Hn0 as [Hn0 Hl0].
       match type of H with context [(fix rep (n : nat) (cs : list clo) (st : dst) {struct n} := _)] =>
         set (rep := (fix rep (n : nat) (cs : list clo) (st : dst) {struct n} : res (list json * list clo * dst) := _)) in H end.
       assert (Hrep : forall n cs st js cs' st', Forall Mcx cs -> rep n cs st = Ok (js, cs', st') ->
-                NX st (flat_map file_refs js) st' /\ Forall Mcx cs').
+                RX st (flat_map file_refs js) st' /\ Forall Mcx cs').
       { induction n as [|n IHn]; intros cs1 st1 js cs1' st1' Hc Hr; cbn in Hr.
-        - injection Hr as <- <- <-. split; [apply NX_nil|assumption].
+        - injection Hr as <- <- <-. split; [apply RX_of_NX; [reflexivity|apply NX_nil]|assumption].
         - destruct (tolist_state dims cs1 st1) as [[[j1 cs2] st2]|] eqn:E1; [|discriminate]. cbn [bind] in Hr.
           destruct (rep n cs2 st2) as [[[js2 cs3] st3]|] eqn:E2; [|discriminate]. cbn [bind] in Hr.
           injection Hr as <- <- <-. destruct (IH _ _ _ _ _ Hc E1) as [Hn1 Hc2]. destruct (IHn _ _ _ _ _ Hc2 E2) as [Hn2 Hc3].
-          split; [cbn [flat_map]; eapply NX_trans; eauto|exact Hc3]. }
+          split; [cbn [flat_map]; eapply RX_trans; eauto|exact Hc3]. }
       destruct (rep d cs st0) as [[[items cs1] st1]|] eqn:E1; [|discriminate]. cbn [bind] in H.
       injection H as <- <- <-. destruct (Hrep _ _ _ _ _ _ Hcs E1) as [Hn1 Hc1]. split; [|exact Hc1].
-      rewrite list_state_refs. intros n. rewrite (Hn1 n), Hn0. tauto.
+      rewrite list_state_refs. eapply RX_pre; [exact Hn0|exact Hl0|exact Hn1].
   Qed.
 
   Lemma kts_refs ks : forall kts, key_type_states E ks = Ok kts -> flat_map file_refs kts = [].
@@ -157,116 +138,129 @@ Section Refs.
     - destruct (dget _ _) as [tid|]; [|discriminate]. destruct (key_type_states E ks) as [rest|]; [|discriminate]. cbn [bind] in H.
       injection H as <-. cbn [flat_map]. rewrite (IH _ eq_refl). reflexivity.
   Qed.
-  Lemma shape_items_refs dims : forall st js st', shape_items dims st = (js, st') -> flat_map file_refs js = [] /\ names st' = names st.
+  Lemma shape_items_refs dims : forall st js st', shape_items dims st = (js, st') ->
+    flat_map file_refs js = [] /\ names st' = names st /\ d_late st' = d_late st.
   Proof.
     induction dims as [|d dims IH]; intros st js st' H; cbn [shape_items] in H; [injection H as <- <-; auto|].
     destruct (int_obj d st) as [i st1] eqn:Ei. destruct (shape_items dims st1) as [rest st2] eqn:Er. injection H as <- <-.
-    destruct (IH _ _ _ Er) as [H1 H2]. cbn [flat_map]. rewrite H1. split; [reflexivity|]. rewrite H2.
-    unfold int_obj in Ei. destruct (is_small_int d); [injection Ei as <- <-; reflexivity|]. unfold fresh in Ei. injection Ei as <- <-. reflexivity.
+    destruct (IH _ _ _ Er) as [H1 [H2 H3]]. cbn [flat_map]. rewrite H1. split; [reflexivity|]. rewrite H2, H3.
+    unfold int_obj in Ei. destruct (is_small_int d); [injection Ei as <- <-; split; reflexivity|]. unfold fresh in Ei. injection Ei as <- <-. split; reflexivity.
   Qed.
-  Lemma shape_state_refs dims st j st' : shape_state dims st = (j, st') -> file_refs j = [] /\ names st' = names st.
+  Lemma shape_state_refs dims st j st' : shape_state dims st = (j, st') ->
+    file_refs j = [] /\ names st' = names st /\ d_late st' = d_late st.
   Proof.
     unfold shape_state. intros H. destruct dims as [|d0 dims0].
-    - cbn in H. injection H as <- <-. split; reflexivity.
+    - cbn in H. injection H as <- <-. repeat split; reflexivity.
     - destruct (fresh st) as [tid st0] eqn:Hf. destruct (shape_items (d0 :: dims0) st0) as [items st1] eqn:Es. injection H as <- <-.
-      destruct (shape_items_refs _ _ _ _ Es) as [H1 H2]. rewrite file_refs_state. cbn [flat_map]. rewrite frf_nofile by reflexivity.
-      rewrite file_refs_arr, H1. split; [reflexivity|]. rewrite H2. unfold fresh in Hf. injection Hf as <- <-. reflexivity.
+      destruct (shape_items_refs _ _ _ _ Es) as [H1 [H2 H3]]. rewrite file_refs_state. cbn [flat_map]. rewrite frf_nofile by reflexivity.
+      rewrite file_refs_arr, H1. split; [reflexivity|]. rewrite H2, H3. unfold fresh in Hf. injection Hf as <- <-. split; reflexivity.
   Qed.
 
   Ltac refs := unfold json_state, type_state; rewrite file_refs_state; cbn [flat_map]; rewrite ?frf_nofile by reflexivity; rewrite ?file_refs_obj; cbn [flat_map];
                rewrite ?frf_nofile by reflexivity; rewrite ?app_nil_r.
+  Ltac same := apply RX_of_NX; [reflexivity|apply NX_nil].
 
   Theorem get_state_refs : forall v, Mx v.
   Proof.
     apply (pval_ind' Mx).
-    - intros v Hl _ _ st j st' H. destruct v; try discriminate Hl; cbn [get_state] in H.
-      + injection H as <- <-. refs. apply NX_nil.
-      + injection H as <- <-. refs. apply NX_nil.
+    - intros v Hl _ st j st' H. destruct v; try discriminate Hl; cbn [get_state] in H.
+      + injection H as <- <-. refs. same.
+      + injection H as <- <-. refs. same.
       + destruct (fresh_uuid st) as [u st1] eqn:Hf. injection H as <- <-.
-        assert (Hn : names st1 = names st) by (unfold fresh_uuid in Hf; injection Hf as <- <-; reflexivity).
+        assert (Hn : names st1 = names st /\ d_late st1 = d_late st) by (unfold fresh_uuid in Hf; injection Hf as <- <-; split; reflexivity).
+        destruct Hn as [Hn Hl1].
         destruct ba; rewrite file_refs_state; cbn [flat_map]; change (frf (K "file", JStr (uuid_name u))) with [uuid_name u]; cbn [app];
-          intros n; rewrite (NX_write (uuid_name u) _ st1 n), Hn; tauto.
+          (apply RX_of_NX; [exact Hl1|intros n; rewrite (NX_write (uuid_name u) _ st1 n), Hn; tauto]).
       + discriminate.
-      + assert (Hsb : forall b st0 jb st1, sbound_json b st0 = Ok (jb, st1) -> names st1 = names st0 /\ file_refs jb = []).
-        { intros b0 st0 jb st1 Hb. destruct b0 as [[| | | |]|]; cbn in Hb; try discriminate; injection Hb as <- <-; split; reflexivity. }
-        inv_bind H. destruct (Hsb _ _ _ _ E0) as [N0 R0]. destruct (Hsb _ _ _ _ E1) as [N1 R1]. destruct (Hsb _ _ _ _ E2) as [N2 R2].
-        refs. rewrite R0, R1, R2. cbn [app]. intros n. unfold names in *. rewrite N2, N1, N0. cbn [In]. tauto.
+      + assert (Hsb : forall b st0 jb st1, sbound_json b st0 = Ok (jb, st1) ->
+                  names st1 = names st0 /\ file_refs jb = [] /\ (d_late st1 = None -> d_late st0 = None)).
+        { intros b0 st0 jb st1 Hb. destruct b0 as [[| | | |]|]; cbn in Hb; try discriminate; injection Hb as <- <-;
+            (split; [reflexivity|split; [reflexivity|]]); try (intro Hx; exact Hx).
+          intro Hx. destruct (set_late_some _ _ Hx). }
+        inv_bind H. destruct (Hsb _ _ _ _ E0) as [N0 [R0 L0]]. destruct (Hsb _ _ _ _ E1) as [N1 [R1 L1]]. destruct (Hsb _ _ _ _ E2) as [N2 [R2 L2]].
+        refs. rewrite R0, R1, R2. cbn [app]. intros Hlate. split; [auto|].
+        intros n. unfold names in *. rewrite N2, N1, N0. cbn [In]. tauto.
       + injection H as <- <-. rewrite file_refs_state. cbn [flat_map]. rewrite frf_nofile by reflexivity.
-        change (frf (K "file", JStr (npy_name id))) with [npy_name id]. cbn [app file_refs]. apply NX_cond.
+        change (frf (K "file", JStr (npy_name id))) with [npy_name id]. cbn [app file_refs].
+        apply RX_of_NX; [destruct (has_member (npy_name id) st); reflexivity|apply NX_cond].
       + destruct (fresh st) as [tid st0] eqn:Hf. injection H as <- <-.
-        assert (Hn : names st0 = names st) by (unfold fresh in Hf; injection Hf as <- <-; reflexivity).
+        assert (Hn : names st0 = names st /\ d_late st0 = d_late st) by (unfold fresh in Hf; injection Hf as <- <-; split; reflexivity).
+        destruct Hn as [Hn Hl0].
         rewrite file_refs_state. cbn [flat_map]. rewrite frf_nofile by reflexivity. rewrite file_refs_state. cbn [flat_map].
         rewrite frf_nofile by reflexivity. change (frf (K "file", JStr (npy_name tid))) with [npy_name tid]. cbn [app file_refs].
+        apply RX_of_NX; [destruct (has_member (npy_name tid) st0); exact Hl0|].
         intros n. rewrite (NX_cond (npy_name tid) _ st0 n), Hn. tauto.
       + injection H as <- <-. rewrite file_refs_state. cbn [flat_map]. rewrite frf_nofile by reflexivity.
-        change (frf (K "file", JStr (npz_name id))) with [npz_name id]. cbn [app file_refs]. apply NX_cond.
-      + injection H as <- <-. refs. apply NX_nil.
-      + injection H as <- <-. unfold type_state. refs. apply NX_nil.
+        change (frf (K "file", JStr (npz_name id))) with [npz_name id]. cbn [app file_refs].
+        apply RX_of_NX; [destruct (has_member (npz_name id) st); reflexivity|apply NX_cond].
+      + injection H as <- <-. refs. same.
+      + injection H as <- <-. unfold type_state. refs. same.
       + discriminate.
-    - intros q id m c nt l IH Hc Hr st j st' H. cbn [get_state] in H. cbn [no_collisions no_rank0] in Hc, Hr.
-      rewrite all_forallb in Hc. rewrite no_rank0_all in Hr. inv_bind H.
+    - intros q id m c nt l IH Hr st j st' H. cbn [get_state] in H. cbn [no_rank0] in Hr.
+      rewrite no_rank0_all in Hr. inv_bind H.
       destruct q; refs; rewrite file_refs_arr; eapply states_refs; eauto.
-    - intros id m c l IH Hc Hr st j st' H. cbn [get_state] in H. cbn [no_collisions no_rank0] in Hc, Hr.
-      apply andb_prop in Hc. destruct Hc as [Hk Hc]. rewrite vals_forallb in Hc. rewrite no_rank0_vals in Hr.
-      unfold keys_plain in Hk. apply andb_prop in Hk. destruct Hk as [Hk1 Hk2].
+    - intros id m c l IH Hr st j st' H. cbn [get_state] in H. cbn [no_rank0] in Hr.
+      rewrite no_rank0_vals in Hr.
       destruct (fresh st) as [ktid st0] eqn:Hf. inv_bind H.
-      assert (Hn : names st0 = names st) by (unfold fresh in Hf; injection Hf as <- <-; reflexivity).
-      destruct (content_refs l IH Hc Hr Hk1 [] st0 _ _ (nodup_pstr_NoDup _ Hk2) E1) as [refs0 [Hfr Hnx]].
+      assert (Hn : names st0 = names st /\ d_late st0 = d_late st) by (unfold fresh in Hf; injection Hf as <- <-; split; reflexivity).
+      destruct Hn as [Hn Hl0]. intros Hlate.
+      destruct (content_refs l IH Hr [] st0 _ _ E1 Hlate) as [L0 [refs0 [Hfr Hnx]]]. split; [rewrite <- Hl0; exact L0|].
       unfold dict_state. refs. rewrite Hfr. cbn [flat_map app]. unfold list_state. rewrite file_refs_state. cbn [flat_map].
       rewrite frf_nofile by reflexivity. rewrite file_refs_arr, (kts_refs _ _ E0). cbn [app]. rewrite app_nil_r.
       intros n. rewrite (Hnx n), Hn. tauto.
-    - intros id m c f l IHf IH Hc Hr st j st' H. cbn [get_state] in H. cbn [no_collisions no_rank0] in Hc, Hr.
-      apply andb_prop in Hc. destruct Hc as [Hc Hcv]. apply andb_prop in Hc. destruct Hc as [Hk Hcf]. rewrite vals_forallb in Hcv.
+    - intros id m c f l IHf IH Hr st j st' H. cbn [get_state] in H. cbn [no_rank0] in Hr.
       apply andb_prop in Hr. destruct Hr as [Hrf Hr]. rewrite no_rank0_vals in Hr.
-      unfold keys_plain in Hk. apply andb_prop in Hk. destruct Hk as [Hk1 Hk2].
       destruct (fresh st) as [did st0] eqn:Hf. destruct (fresh st0) as [ktid st0'] eqn:Hf2. inv_bind H.
-      assert (Hn : names st0' = names st) by (unfold fresh in Hf, Hf2; injection Hf as <- <-; injection Hf2 as <- <-; reflexivity).
-      destruct (content_refs l IH Hcv Hr Hk1 [] st0' _ _ (nodup_pstr_NoDup _ Hk2) E1) as [refs0 [Hfr Hnx]].
-      pose proof (IHf Hcf Hrf _ _ _ E2) as Hnf.
+      assert (Hn : names st0' = names st /\ d_late st0' = d_late st)
+        by (unfold fresh in Hf, Hf2; injection Hf as <- <-; injection Hf2 as <- <-; split; reflexivity).
+      destruct Hn as [Hn Hl0]. intros Hlate.
+      destruct (IHf Hrf _ _ _ E2 Hlate) as [L1 Hnf].
+      destruct (content_refs l IH Hr [] st0' _ _ E1 L1) as [L0 [refs0 [Hfr Hnx]]]. split; [rewrite <- Hl0; exact L0|].
       refs. unfold dict_state. rewrite file_refs_state. cbn [flat_map]. rewrite ?frf_nofile by reflexivity. rewrite file_refs_obj, Hfr. cbn [flat_map app].
       unfold list_state. rewrite file_refs_state. cbn [flat_map]. rewrite frf_nofile by reflexivity. rewrite file_refs_arr, (kts_refs _ _ E0). cbn [app].
       rewrite !app_nil_r. destruct (root_fields _ _ _ _ _ E2) as [kvf [Hjf _]]. subst j0.
       intros n. rewrite (Hnf n), (Hnx n), Hn, in_app_iff. tauto.
-    - intros id m c sh l IH Hc Hr st j st' H. cbn [get_state] in H. cbn [no_collisions no_rank0] in Hc, Hr.
-      rewrite all_forallb in Hc. destruct sh as [|d0 sh0]; [discriminate Hr|]. rewrite no_rank0_all in Hr.
+    - intros id m c sh l IH Hr st j st' H. cbn [get_state] in H. cbn [no_rank0] in Hr.
+      destruct sh as [|d0 sh0]; [discriminate Hr|]. rewrite no_rank0_all in Hr.
       destruct (tolist_state _ _ _) as [[[ser cs'] st1]|] eqn:E0; [|discriminate]. cbn [bind] in H.
       destruct (tolist_list_state _ _ _ _ _ _ _ E0) as [items [lid ->]].
       change (jindex (list_state items lid) (K "content")) with (Ok (A:=json) (JArr items)) in H. cbn [bind] in H.
       destruct (shape_state (d0 :: sh0) st1) as [shj st2] eqn:E1. injection H as <- <-.
       assert (Hcl : Forall Mcx (map (fun x s0 => get_state E x s0) l)).
-      { clear -IH Hc Hr. rewrite forallb_forall in Hc, Hr. rewrite Forall_forall in IH. apply Forall_forall. intros c0 Hc0.
+      { clear -IH Hr. rewrite forallb_forall in Hr. rewrite Forall_forall in IH. apply Forall_forall. intros c0 Hc0.
         apply in_map_iff in Hc0. destruct Hc0 as [x [<- Hx]]. intros st j st' H. eapply IH; eauto. }
       destruct (tolist_refs _ _ _ _ _ _ Hcl E0) as [Hn1 _]. rewrite list_state_refs in Hn1.
-      destruct (shape_state_refs _ _ _ _ E1) as [Hs1 Hs2].
+      destruct (shape_state_refs _ _ _ _ E1) as [Hs1 [Hs2 Hs3]].
       rewrite file_refs_state. cbn [flat_map]. rewrite ?frf_nofile by reflexivity. rewrite file_refs_arr, Hs1. cbn [file_refs app]. rewrite app_nil_r.
-      intros n. unfold names in *. rewrite Hs2. exact (Hn1 n).
-    - intros id m c d k IHd IHk Hc Hr st j st' H. cbn [get_state] in H. cbn [no_collisions no_rank0] in Hc, Hr.
-      apply andb_prop in Hc. destruct Hc. apply andb_prop in Hr. destruct Hr. inv_bind H. refs.
+      intros Hlate. rewrite Hs3 in Hlate. destruct (Hn1 Hlate) as [L0 N0]. split; [exact L0|].
+      intros n. unfold names in *. rewrite Hs2. exact (N0 n).
+    - intros id m c d k IHd IHk Hr st j st' H. cbn [get_state] in H. cbn [no_rank0] in Hr.
+      apply andb_prop in Hr. destruct Hr. inv_bind H. refs.
       destruct (root_fields _ _ _ _ _ E0) as [kv0 [-> _]]. destruct (root_fields _ _ _ _ _ E1) as [kv1 [-> _]].
-      rewrite ?frf_nofile by reflexivity. rewrite ?app_nil_r. eapply NX_trans; [eapply IHd; eauto|eapply IHk; eauto].
-    - intros id m c x IHx Hc Hr st j st' H. cbn [get_state] in H. cbn [no_collisions no_rank0] in Hc, Hr. inv_bind H. refs. eapply IHx; eauto.
-    - intros id m c x y IHx IHy Hc Hr st j st' H. cbn [get_state] in H. cbn [no_collisions no_rank0] in Hc, Hr.
-      apply andb_prop in Hc. destruct Hc. apply andb_prop in Hr. destruct Hr. inv_bind H. refs.
-      rewrite ?frf_nofile by reflexivity. rewrite ?app_nil_r. eapply NX_trans; [eapply IHx; eauto|eapply IHy; eauto].
-    - intros id m c f a k n IHf IHa IHk IHn Hc Hr st j st' H. cbn [get_state] in H. cbn [no_collisions no_rank0] in Hc, Hr.
-      apply andb_prop in Hc. destruct Hc as [Hc Hc4]. apply andb_prop in Hc. destruct Hc as [Hc Hc3]. apply andb_prop in Hc. destruct Hc as [Hc1 Hc2].
+      rewrite ?frf_nofile by reflexivity. rewrite ?app_nil_r. eapply RX_trans; [eapply IHd; eauto|eapply IHk; eauto].
+    - intros id m c x IHx Hr st j st' H. cbn [get_state] in H. cbn [no_rank0] in Hr. inv_bind H. refs. eapply IHx; eauto.
+    - intros id m c x y IHx IHy Hr st j st' H. cbn [get_state] in H. cbn [no_rank0] in Hr.
+      apply andb_prop in Hr. destruct Hr. inv_bind H. refs.
+      rewrite ?frf_nofile by reflexivity. rewrite ?app_nil_r. eapply RX_trans; [eapply IHx; eauto|eapply IHy; eauto].
+    - intros id m c f a k n IHf IHa IHk IHn Hr st j st' H. cbn [get_state] in H. cbn [no_rank0] in Hr.
       apply andb_prop in Hr. destruct Hr as [Hr Hr4]. apply andb_prop in Hr. destruct Hr as [Hr Hr3]. apply andb_prop in Hr. destruct Hr as [Hr1 Hr2].
       inv_bind H. refs. rewrite ?frf_nofile by reflexivity. rewrite ?app_nil_r.
-      eapply NX_trans; [eapply IHf; eauto|]. eapply NX_trans; [eapply IHa; eauto|]. eapply NX_trans; [eapply IHk; eauto|eapply IHn; eauto].
-    - intros id c a IHa Hc Hr st j st' H. cbn [get_state] in H. cbn [no_collisions no_rank0] in Hc, Hr. inv_bind H. refs. eapply IHa; eauto.
-    - intros id m f x IHx Hc Hr st j st' H. cbn [get_state] in H. cbn [no_collisions no_rank0] in Hc, Hr. inv_bind H. refs.
+      eapply RX_trans; [eapply IHf; eauto|]. eapply RX_trans; [eapply IHa; eauto|]. eapply RX_trans; [eapply IHk; eauto|eapply IHn; eauto].
+    - intros id c a IHa Hr st j st' H. cbn [get_state] in H. cbn [no_rank0] in Hr. inv_bind H. refs. eapply IHa; eauto.
+    - intros id m f x IHx Hr st j st' H. cbn [get_state] in H. cbn [no_rank0] in Hr. inv_bind H. refs.
       rewrite ?frf_nofile by reflexivity. cbn [file_refs app]. rewrite ?app_nil_r. eapply IHx; eauto.
-    - intros id m c hk h ok x _ IHx Hc Hr st j st' H. cbn [get_state] in H. cbn [no_collisions no_rank0] in Hc, Hr.
-      destruct ok; inv_bind H; refs; try (eapply IHx; eauto). apply NX_nil.
+    - intros id m c hk h ok x _ IHx Hr st j st' H. cbn [get_state] in H. cbn [no_rank0] in Hr.
+      destruct ok; inv_bind H; refs; try (eapply IHx; eauto). same.
   Qed.
 End Refs.
 
 (* the members of the archive are exactly the files its node-states refer to *)
-Theorem dumps_members_exact D base v a : dumps_model D base v = Ok a -> no_collisions v = true -> no_rank0 v = true ->
+Theorem dumps_members_exact D base v a : dumps_model D base v = Ok a -> no_rank0 v = true ->
   forall n, In n (map fst (a_members a)) <-> In n (file_refs (a_schema a)).
 Proof.
-  unfold dumps_model. intros H Hc Hr. destruct (get_state D v (init_dst base)) as [[j st]|] eqn:E0; [|discriminate]. cbn [bind] in H.
-  pose proof (get_state_refs D v Hc Hr _ _ _ E0) as Hn. destruct j; try discriminate. destruct (d_late st); [discriminate|]. injection H as <-.
-  cbn [a_members a_schema]. intros n. rewrite (Hn n). unfold names. cbn [init_dst d_members map In].
+  unfold dumps_model. intros H Hr. destruct (get_state D v (init_dst base)) as [[j st]|] eqn:E0; [|discriminate]. cbn [bind] in H.
+  pose proof (get_state_refs D v Hr _ _ _ E0) as Hn. destruct j; try discriminate. destruct (d_late st) eqn:Hlate; [discriminate|]. injection H as <-.
+  destruct (Hn Hlate) as [_ Hn'].
+  cbn [a_members a_schema]. intros n. rewrite (Hn' n). unfold names. cbn [init_dst d_members map In].
   rewrite !file_refs_obj, flat_map_app. cbn [flat_map]. rewrite ?frf_nofile by reflexivity. cbn [file_refs app]. rewrite app_nil_r. tauto.
 Qed.
